@@ -120,10 +120,14 @@ pub fn gen_batch_case(check: &str, seed: u64, family: &str, tier: Tier, with_fil
             o.preexisting = false;
         }
     }
-    let nq = match tier {
+    let mut nq = match tier {
         Tier::Quick => r.range(1, 24),
         Tier::Thorough => r.range(1, 60),
     } as usize;
+    if r.chance(0.006) {
+        // a size knob: hundreds of queries in one batch (chunk arithmetic far from the small cases)
+        nq = r.range(200, 700) as usize;
+    }
     let n_batches = match r.below(20) {
         0..=13 => 1,
         14..=17 => 2,
